@@ -117,6 +117,7 @@ type HarnessResult struct {
 	Blocked       int
 	Winners       []string
 	UnwindCuts    int
+	FeasibleCombos int
 }
 
 type Session struct {
@@ -137,6 +138,7 @@ type Session struct {
 	model    map[string]ModelVal
 	violated []string
 	concErr  string
+	pcTerms  []*Term
 }
 
 func (s *Session) send(text string) {
@@ -168,10 +170,45 @@ func (s *Session) ref(t *Term) string {
 	return n
 }
 
+type pcMarkT struct {
+	nTerms    int
+	scriptLen int
+	emitLen   int
+}
+
+func (s *Session) pcMark() pcMarkT {
+	return pcMarkT{len(s.pcTerms), s.script.Len(), len(s.r.emitLog)}
+}
+
+// pcReset rolls the solver context back to a mark (used between isolated thread explorations).
+func (s *Session) pcReset(m pcMarkT) {
+	if s.concrete {
+		return
+	}
+	s.pcTerms = s.pcTerms[:m.nTerms]
+	text := s.script.String()[:m.scriptLen]
+	s.script.Reset()
+	s.script.WriteString(text)
+	for _, id := range s.r.emitLog[m.emitLen:] {
+		delete(s.r.emitted, id)
+	}
+	s.r.emitLog = s.r.emitLog[:m.emitLen]
+	s.solver.Send("(reset)\n" + text)
+}
+
+func (s *Session) pcSince(m interface{}) []*Term {
+	n := 0
+	if mk, ok := m.(pcMarkT); ok {
+		n = mk.nTerms
+	}
+	return append([]*Term{}, s.pcTerms[n:]...)
+}
+
 func (s *Session) AssertPC(t *Term) {
 	if t.IsTrue() {
 		return
 	}
+	s.pcTerms = append(s.pcTerms, t)
 	if s.concrete {
 		if t.IsFalse() {
 			s.concErr = "model violates a path constraint / environment contract"
@@ -315,6 +352,10 @@ func (s *Session) NoteChoice(name string, c int) {
 }
 
 func (s *Session) Reach(label string) {
+	if c := s.ex.conc; c.active() {
+		c.cur.Reach = append(c.cur.Reach, label)
+		return
+	}
 	s.res.Reaches[label]++
 }
 
@@ -337,6 +378,11 @@ func (s *Session) Obligation(id, kind string, cond *Term, pos, msg string) bool 
 		if i := strings.Index(id, "@"); i >= 0 {
 			id = id[:i]
 		}
+	}
+	if c := s.ex.conc; c.active() {
+		// concurrent mode: obligations are recorded per thread path and posed on the composition
+		c.cur.Asserts = append(c.cur.Asserts, recAssert{ID: id, Cond: cond, Pos: pos, Kind: kind, Msg: msg})
+		return !cond.IsFalse()
 	}
 	st := s.stat(id, kind)
 	st.Reached++
